@@ -12,7 +12,7 @@
 From Coq Require Import List ZArith Bool.
 From OV.C12 Require Import OpDefs Model.
 From OV.C15 Require Import Model.
-From OV.gen Require Import C12_OpTable.
+From OV.gen Require Import C12_OpTable C15_Flags.
 Import ListNotations.
 Local Open Scope Z_scope.
 
@@ -140,7 +140,7 @@ Fixpoint occa_rejects (prev : option ptok) (ts : list ptok) : bool :=
     (match prev, t, r with
      | Some p, POp o, nx :: _ =>
        is_operand_end p &&
-       ((existsb (list_eqb (op_sym o)) [[43]; [45]; [42]; [38]] && is_opish nx)
+       ((negb ambfix && existsb (list_eqb (op_sym o)) [[43]; [45]; [42]; [38]] && is_opish nx)
         || (existsb (list_eqb (op_sym o)) [[43; 43]; [45; 45]]
             && match nx with POp o2 => ot_has (op_type o2) ot_pairEnd | _ => false end))
      | _, _, _ => false
